@@ -69,8 +69,31 @@ def proof_part(ctx, pid):
     return res
 
 
+def confirm_hangs(drv, fails, seed):
+    """a watchdog hit in the sharded run may be load (ASan + many properties + a busy machine): the read is repeated
+    alone with a 120 s watchdog and only counts as a hang if it still does not finish"""
+    out = []
+    for f in fails:
+        if f["kind"] != "reader-hang":
+            out.append(f)
+            continue
+        m = re.search(r"kind ([pth]), topology_check (true|false), fault (none|\(?some (\d+)\)?)", f["detail"])
+        mk, tc, fa = ("p", 1, -1) if not m else (m.group(1), 1 if m.group(2) == "true" else 0, int(m.group(4)) if m.group(4) else -1)
+        data = bytes.fromhex(f["hex"]) if f["hex"] not in ("", "-") else b""
+        try:
+            cls, _ = oc.read_one(drv, mk, tc, 1, data, fa, 0, seed, timeout_ms=120000)
+        except Exception:
+            cls = "hang"
+        if cls == "hang":
+            out.append(f)
+        else:
+            log("[io] watchdog hit not confirmed in isolation (%s): %s" % (cls, f["id"]))
+    return out
+
+
 def report(ctx, pid, drv, fails, label):
     """property-level failures first (concrete inputs), then correspondence-level ones"""
+    fails = confirm_hangs(drv, fails, ctx.seed)
     prop = [f for f in fails if f["kind"] in PROP_KINDS[pid]]
     corr = [f for f in fails if f["kind"] not in PROP_KINDS[pid]]
     n = _report(ctx, drv, prop, label, True)
